@@ -54,6 +54,12 @@ class Calls(object):
     def call(self, ev, node, st):
         f = node.func
         cx = self.cx
+        if isinstance(f, ast.Name) and f.id in self.fx.aliases and not ev.spec:
+            recv_name, meth = self.fx.aliases[f.id]
+            fake = ast.Call(func=ast.Attribute(value=ast.Name(id=recv_name, ctx=ast.Load()), attr=meth, ctx=ast.Load()), args=node.args, keywords=node.keywords)
+            ast.copy_location(fake, node)
+            ast.fix_missing_locations(fake)
+            return self.method(ev, fake, st)
         if isinstance(f, ast.Name):
             nm = f.id
             h = getattr(self, "spec_" + nm, None)
@@ -382,6 +388,12 @@ class Calls(object):
             return SV(z3.If(a.e <= b.e, a.e, b.e), TInt())
         raise Outside("min")
 
+    def bi_bytearray(self, ev, node, st):
+        (a,) = self._args(ev, node, st)
+        if isinstance(a.t, TStr):
+            return a
+        raise Outside("bytearray of %s" % a.t)
+
     def bi_next(self, ev, node, st):
         """next(iterable, default) over a finite sequence value: its first element, or the default"""
         if len(node.args) != 2:
@@ -553,6 +565,16 @@ class Calls(object):
 
     def str_method(self, ev, recv, name, node, st):
         cx = self.cx
+        if name in ("extend", "append") and isinstance(node.func.value, ast.Name):
+            # bytearray.extend on a local buffer = re-binding to the concatenation
+            (a,) = self._args(ev, node, st)
+            if isinstance(a.t, TOpt) and isinstance(a.t.inner, TStr):
+                ev.fork_exc(st, z3.Not(a.t.is_none(cx, a.e)), "TypeError", self.fx.where(node))
+                a = SV(a.t.get(cx, a.e), a.t.inner)
+            if not isinstance(a.t, TStr):
+                raise Outside("bytearray.extend with %s" % a.t)
+            self.rebind(ev, node.func.value, SV(self.fx.lib.str_concat(recv.e, a.e), TStr()), st, node)
+            return SV(None, TNone())
         c = self.fx.session.lookup_function(self.fx.module, "str." + name)
         if c is not None:
             return self.contracted(ev, c, recv, node, st)
